@@ -71,23 +71,73 @@ func (t *vfCaptureTransport) DialTimeout(addr string, timeout time.Duration) (ne
 	return t.DialAddressTimeout(memberlist.Address{Addr: addr}, timeout)
 }
 
+type vfMLOut struct {
+	Validated int64         `json:"validated"`
+	Viol      []vfViolation `json:"viol,omitempty"`
+	Err       string        `json:"err,omitempty"`
+}
+
+// TestVerifC09Memberlist: the conformance scenario runs in a worker process, so that a crash of the code under
+// test (a panic in a goroutine memberlist or the shard manager started) is attributed to it instead of taking
+// the check down.
 func TestVerifC09Memberlist(t *testing.T) {
+	if vrt.IsWorker() {
+		vrt.ServeWorker(func(string) string {
+			out := vfMemberlistScenario()
+			b, _ := json.Marshal(out)
+			return string(b)
+		})
+		return
+	}
 	res := vrt.NewResult("C09", "model_checking")
 	defer func() {
 		if err := res.Write(); err != nil {
 			t.Fatal(err)
 		}
 	}()
+	pool := vrt.NewPool("TestVerifC09Memberlist", 1, 10*time.Minute)
+	r := pool.Map([]string{"{}"}, nil)[0]
+	var out vfMLOut
+	replay := map[string]any{"part": "TestVerifC09Memberlist"}
+	switch {
+	case r.Crashed && vrt.CrashInCodeUnderTest(r.Stderr):
+		tail := r.Stderr
+		if len(tail) > 2500 {
+			tail = tail[len(tail)-2500:]
+		}
+		res.Violate("conformance/process-crash", "two instances on a real memberlist (join, claim, newer claim, leave, stop): the process died in the code under test\n"+tail, replay)
+	case r.Crashed || r.TimedOut:
+		res.Set("memberlist_run_error", fmt.Sprintf("worker crashed=%v timedOut=%v: %.500s", r.Crashed, r.TimedOut, r.Stderr))
+		res.Set("exhaustive", false)
+	default:
+		_ = json.Unmarshal([]byte(r.Out), &out)
+		for _, v := range out.Viol {
+			res.Violate(v.Signature, v.Detail, replay)
+		}
+		if out.Err != "" {
+			res.Set("memberlist_run_error", out.Err)
+		}
+	}
+	validated := out.Validated
+	res.Set("states", validated)
+	res.Set("transitions", validated)
+	res.Set("traces_validated_against_impl", validated)
+	res.Set("memberlist_conformance_steps", validated)
+	res.Sample(map[string]any{"conformance": "join merges state; RegisterShard -> 1 reliable message {type,node,shard,timestamp>=registration}; newer claim evicts through memberlist's receive path; leave removes the node; Stop of the remaining instance completes without a crash"})
+	res.Assume("the conformance run uses memberlist's MockNetwork transport in real time; conditions are polled for up to 30 s, a deadlock verdict additionally requires the blocked NotifyLeave frame in the goroutine dump")
+}
+
+func vfMemberlistScenario() (out vfMLOut) {
 	var validated int64
 	fail := func(sig, detail string) {
-		res.Violate("conformance/"+sig, detail, map[string]any{"part": "TestVerifC09Memberlist"})
+		out.Viol = append(out.Viol, vfViolation{"C09", "conformance/" + sig, detail})
 	}
 	done := make(chan struct{})
 	go func() {
 		defer close(done)
 		defer func() {
 			if p := recover(); p != nil {
-				res.Set("memberlist_run_error", fmt.Sprint(p))
+				out.Err = fmt.Sprint(p)
 			}
 		}()
 		func() {
@@ -245,15 +295,40 @@ func TestVerifC09Memberlist(t *testing.T) {
 				return
 			}
 			validated++
+			// the remaining instance stops the way the proxy does (shardManagerImpl.Stop: leave, shutdown, pointer cleared):
+			// it must return, and nothing it started may crash afterwards
+			stopDone := make(chan struct{})
+			go func() {
+				nodes[0].sm.Stop()
+				close(stopDone)
+			}()
+			select {
+			case <-stopDone:
+			case <-time.After(60 * time.Second):
+				buf := make([]byte, 1<<20)
+				stacks := string(buf[:runtime.Stack(buf, true)])
+				var rel []string
+				for _, g := range strings.Split(stacks, "\n\n") {
+					if strings.Contains(g, "shardManagerImpl") || strings.Contains(g, "shardEventDelegate") {
+						rel = append(rel, g)
+					}
+				}
+				if strings.Contains(stacks, "Memberlist).UpdateNode") {
+					fail("memberlist-lock-held-by-unbounded-UpdateNode", "shardManagerImpl.Stop never returns: a shard change is still inside memberlist.UpdateNode (waiting without limit for a broadcast no peer is left to receive) and holds the manager's memberlist lock, which Stop, announcements and joins need\n"+strings.Join(rel, "\n\n"))
+				} else if strings.Contains(stacks, "shardEventDelegate).NotifyLeave") {
+					fail("stop-deadlocks-in-NotifyLeave", "shardManagerImpl.Stop never returns: memberlist's own Leave calls NotifyLeave, which is blocked\n"+strings.Join(rel, "\n\n"))
+				} else {
+					fail("stop-does-not-return", "shardManagerImpl.Stop did not return within 60 s")
+				}
+				return
+			}
+			time.Sleep(500 * time.Millisecond) // goroutines started by the leave notification run now (a crash ends this process)
+			validated++
 		}()
 	}()
 	<-done
-	res.Set("states", validated)
-	res.Set("transitions", validated)
-	res.Set("traces_validated_against_impl", validated)
-	res.Set("memberlist_conformance_steps", validated)
-	res.Sample(map[string]any{"conformance": "join merges state; RegisterShard -> 1 reliable message {type,node,shard,timestamp>=registration}; newer claim evicts through memberlist's receive path; leave removes the node"})
-	res.Assume("the conformance run uses memberlist's MockNetwork transport in real time; conditions are polled for up to 30 s, a deadlock verdict additionally requires the blocked NotifyLeave frame in the goroutine dump")
+	out.Validated = validated
+	return out
 }
 
 func (t *vfCaptureTransport) addrString() string {
